@@ -364,7 +364,13 @@ impl Sim {
         let chooser = Chooser::shared(prefix);
         let fabric = Fabric::new(chooser.clone(), default_latency_us);
         fabric.install();
+        anemo::verif::set_inline_resolve(true);
         let svc = Arc::new(SvcShared::default());
+        let taps: Arc<Mutex<Vec<(usize, anemo::verif::TapEvent)>>> = Arc::new(Mutex::new(vec![]));
+        {
+            let taps = taps.clone();
+            anemo::verif::set_tap(Some(Arc::new(move |registry, ev| taps.lock().unwrap().push((registry, ev)))));
+        }
         let t0 = Instant::now();
         *svc.t0.lock().unwrap() = Some(t0);
         Arc::new(Sim {
@@ -373,7 +379,7 @@ impl Sim {
             svc,
             t0,
             labels: Mutex::new(HashMap::new()),
-            taps: Arc::new(Mutex::new(vec![])),
+            taps,
             keep: Mutex::new(vec![]),
             post: Mutex::new(vec![]),
         })
@@ -459,6 +465,7 @@ impl Drop for Sim {
         Fabric::uninstall();
         anemo::verif::set_tap(None);
         anemo::verif::set_jitter_override(None);
+        anemo::verif::set_inline_resolve(false);
     }
 }
 
@@ -678,4 +685,122 @@ pub fn check_seen(sim: &Sim, spec: &RpcSpec, callee_node: usize, caller: PeerId)
         }
     }
     Ok(seen.len())
+}
+
+
+// ---------------------------------------------------------------------------------------------
+// Trace conformance: every registry (ActivePeers instance) of every network of an execution must
+// have behaved like the sequential reference model, call by call (hook H4 taps).
+// ---------------------------------------------------------------------------------------------
+
+/// Replays the tap trace of each registry against the reference model of C04 (one connection per
+/// peer, tie-break by identities and directions, events exactly as the listing changes).
+/// Returns (key, message) for every deviation, and the number of calls checked.
+pub fn check_registry_traces(sim: &Sim) -> (Vec<(String, String)>, u64) {
+    use anemo::verif::TapEvent;
+    use anemo::types::DisconnectReason;
+    let taps = sim.taps.lock().unwrap().clone();
+    let mut bad = vec![];
+    let mut calls = 0u64;
+    let mut registries: Vec<usize> = taps.iter().map(|t| t.0).collect();
+    registries.sort();
+    registries.dedup();
+    for reg in registries {
+        // peer -> (inbound?, stable id)
+        let mut model: HashMap<PeerId, (bool, usize)> = HashMap::new();
+        let mine: Vec<&TapEvent> = taps.iter().filter(|t| t.0 == reg).map(|t| &t.1).collect();
+        let mut i = 0;
+        while i < mine.len() {
+            let call = mine[i];
+            i += 1;
+            let mut got: Vec<&PeerEvent> = vec![];
+            while i < mine.len() {
+                if let TapEvent::Event(e) = mine[i] {
+                    got.push(e);
+                    i += 1;
+                } else {
+                    break;
+                }
+            }
+            let mut want: Vec<PeerEvent> = vec![];
+            match call {
+                TapEvent::AddCall { own, peer, origin, stable_id } => {
+                    calls += 1;
+                    let inbound = origin.to_string() == "inbound";
+                    let register = match model.get(peer) {
+                        None => true,
+                        Some((old_inbound, _)) => {
+                            if *old_inbound == inbound {
+                                true
+                            } else {
+                                let new_dialer = if inbound { *peer } else { *own };
+                                let old_dialer = if *old_inbound { *peer } else { *own };
+                                new_dialer > old_dialer
+                            }
+                        }
+                    };
+                    if register {
+                        if model.contains_key(peer) {
+                            want.push(PeerEvent::LostPeer(*peer, DisconnectReason::Requested));
+                        }
+                        want.push(PeerEvent::NewPeer(*peer));
+                        model.insert(*peer, (inbound, *stable_id));
+                    }
+                }
+                TapEvent::RemoveCall { peer } => {
+                    calls += 1;
+                    if model.remove(peer).is_some() {
+                        want.push(PeerEvent::LostPeer(*peer, DisconnectReason::Requested));
+                    }
+                }
+                TapEvent::RemoveIdCall { peer, stable_id, reason } => {
+                    calls += 1;
+                    if model.get(peer).map(|m| m.1) == Some(*stable_id) {
+                        model.remove(peer);
+                        want.push(PeerEvent::LostPeer(*peer, reason.clone()));
+                    }
+                }
+                TapEvent::Event(e) => {
+                    bad.push(("registry-trace".to_string(), format!("an event ({}) was announced outside any registry operation", event_str(sim, e))));
+                    continue;
+                }
+            }
+            let got_owned: Vec<PeerEvent> = got.into_iter().cloned().collect();
+            if got_owned != want {
+                bad.push((
+                    "registry-trace".to_string(),
+                    format!(
+                        "registry operation {:?} announced {:?}; the reference model (one connection per peer, tie-break by identity and direction) expects {:?}",
+                        describe_call(sim, call),
+                        got_owned.iter().map(|e| event_str(sim, e)).collect::<Vec<_>>(),
+                        want.iter().map(|e| event_str(sim, e)).collect::<Vec<_>>()
+                    ),
+                ));
+                // resynchronise the model on what actually happened
+                for e in &got_owned {
+                    match e {
+                        PeerEvent::LostPeer(p, _) => {
+                            model.remove(p);
+                        }
+                        PeerEvent::NewPeer(p) => {
+                            if let TapEvent::AddCall { origin, stable_id, .. } = call {
+                                model.insert(*p, (origin.to_string() == "inbound", *stable_id));
+                            }
+                        }
+                    }
+                }
+            }
+        }
+    }
+    (bad, calls)
+}
+
+fn describe_call(sim: &Sim, c: &anemo::verif::TapEvent) -> String {
+    use anemo::verif::TapEvent;
+    match c {
+        TapEvent::AddCall { own, peer, origin, .. } => format!("add(own {}, peer {}, {})", sim.label(own), sim.label(peer), origin),
+        TapEvent::RemoveCall { peer } => format!("remove({})", sim.label(peer)),
+        TapEvent::RemoveIdCall { peer, reason, .. } => format!("remove_with_stable_id({}, {:?})", sim.label(peer), reason),
+        TapEvent::Event(e) => event_str(sim, e),
+    }
 }
